@@ -1,52 +1,115 @@
 // io2coq reads package jen (current working tree, non-test files, build tag verif off),
 // type-checks it with go/types and prints coq/Gen/IO.v: the body of every render ENTRY POINT
 // as a list of events over the statement language of coq/Spec/IOShape.v - the premise of C10
-// at buffer level.
+// at buffer level - and the result of a whole-package confinement scan (io_confinement).
 //
 // Entry points (discovered, not listed): every exported function or method of an exported type
-//   - with a parameter of type io.Writer (the CALLER's writer)            -> kind EWriter, or
-//     EDelegate when its body is exactly `return recv.Other(w, ..)` with Other an EWriter entry;
+//   - with one or more parameters whose TYPE IMPLEMENTS io.Writer (io.Writer, io.WriteCloser,
+//     *os.File, *bytes.Buffer, ..: the CALLER's writers; all of them are tracked, and a mention
+//     of any of them is an EvWriteCaller event on the one log of the semantics)  -> kind EWriter,
+//     or EDelegate when its body is exactly `return recv.Other(w, ..)` with Other an EWriter entry;
 //   - without one but calling package os or io/ioutil                     -> kind EFileSys (File.Save).
+//
+// and, transitively, every UNEXPORTED function of package jen to which such a function hands a
+// caller's writer (statically resolved call, the writer as an identifier at a parameter whose
+// type implements io.Writer): INTERNAL entry points, translated and checked like the others
+// (kind EWriter or EDelegate), so that `return helper(w, ..)` as a whole body is a delegation.
+//
+// NOT tracked (stated, not checked): a writer that reaches an exported function inside another
+// value (a struct field of a parameter or of the receiver, a slice, a func, an interface{}).
+// Rule 2 and 3 of the confinement scan below close the roads by which package jen could keep
+// or recover such a writer.
 //
 // Exported functions that only call an entry point with a local buffer (GoString) are listed in
 // io_notes.
 //
-// Translation of a body (source order, purely structural; go/types is used only to identify
-// objects: the writer parameter, packages fmt/io/os/format/bytes, functions of package jen):
+// Identity.  Variables and buffers are go/types OBJECTS.  An object is printed under its own
+// name; a second object of the same name in the same function (shadowing: `output, err :=`
+// inside an inner block) is printed as name#2, name#3, ..  So equal names in one entry mean the
+// same variable.  Only local variables and parameters of the function being translated have a
+// name; a field or a package-level variable in their place makes the statement EvOther.
+// `&b` with b a local variable of type bytes.Buffer denotes the same buffer as b.
+//
+// Translation of a body (source order, purely structural):
 //
 //	b := &bytes.Buffer{} | bytes.Buffer{} | new(bytes.Buffer)      Do (EvNewBuf b)
-//	var x T                                                         Do (EvDecl x)
-//	x = y.Bytes()                                                   Do (EvBytes x y)
+//	var b bytes.Buffer   |  var b = <one of the three above>        Do (EvNewBuf b)   (the zero value is an empty buffer)
+//	var x T              (no initialiser, T not bytes.Buffer)       Do (EvDecl x)
+//	x = y.Bytes()  |  x := y.Bytes()                                Do (EvBytes x y)
 //	if [_,] err := CALL; err != nil { return R }                    Try <CALL> <R>
 //	x, err := CALL  (or =)  followed by  if err != nil { return R } Try <CALL> <R>
+//	x, err := CALL  (or =)  followed by  return err                 Try <CALL> EvReturnErr; EvReturnNil
 //	CALL  |  _, _ = CALL  |  x, err := CALL not followed by a check Do <CALL>
 //	return nil                                                      EvReturnNil
 //	return CALL                                                     Try <CALL> EvReturnErr; EvReturnNil
-//	if X.NoFormat { A } else { B }                                  EvCondNoFormat (block A) (block B)
+//	if r.NoFormat { A } [else { B }]                                EvCondNoFormat (block A) (block B)
+//	if !r.NoFormat { B } [else { A }]                               EvCondNoFormat (block A) (block B)
+//	    (r the RECEIVER, NoFormat a bool field of a type of package jen; a missing else is Nop)
 //	if COND { A }   (COND: no call but len, no writer)              If "COND" (block A)
 //	for .. := range X { A }   (X: no call, no writer)               For "X" (block A)
+//	for INIT; COND; POST { A }                                      For "for INIT; COND; POST" (block A)
+//	    (INIT, POST: absent or x := e, x = e, x op= e, x++, x-- on local variables that are neither
+//	     writers nor buffers, e without calls but len; COND as above: a header that only counts.
+//	     The semantics of For runs the body any number of times.)
+//
+// The rules that REWRITE rather than classify are these, all plainly semantics-preserving (the
+// function has a single unnamed result of type error, which the translator checks):
+//
+//	`return CALL` and `x, err := CALL; return err`  ==  `if err != nil { return err }; return nil`;
+//	`if !c { B } else { A }`  ==  `if c { A } else { B }`;  `if c { A }`  ==  `if c { A } else {}`;
+//	`var b bytes.Buffer`, `&b`  ==  `b := &bytes.Buffer{}`, `b`.
+//
+// There is NO inlining: a helper that receives the caller's writer is KPass (rejected by the
+// checker), a helper that receives a local buffer is EvRender.
 //
 // <R>: `err` -> EvReturnErr; fmt.Errorf(.., err, ..) -> EvReturnWrapped; nil -> EvSwallowErr.
 // <CALL> (first rule that applies):
 //
-//	anything mentioning the writer parameter w                      EvWriteCaller k ..
-//	    w.Write(x), x an identifier                                     k = KWrite, arg x
+//	anything mentioning a writer parameter w                        EvWriteCaller k ..
+//	    w.Write(x), x a local variable                                  k = KWrite, arg x
 //	    fmt.Fprint*(w, ..)                                               KFprint
 //	    io.WriteString(w, ..), io.Copy(w, ..)                            KWriteString
-//	    recv.Entry(w, ..) with Entry an EWriter entry point              KDelegate, what = entry name
+//	    recv.Entry(.., w, ..) with Entry an EWriter entry point, w at one of ITS writer
+//	    parameters, no other mention of a writer, nothing of rule 1 below  KDelegate, what = entry name
 //	    a function literal mentioning w                                  KStore
 //	    any other call                                                   KPass
 //	any call containing a call into package os or io/ioutil         EvWriteFile fn path data
+//	any call mentioning an object of rule 1 below (os.Stdout, fmt.Println, log.Printf ..)
+//	                                                                EvWriteFile "<object> (in: ..)" "" ""
 //	format.Source(b.Bytes())                                        EvFormat x b   (x the variable assigned)
-//	recv.Entry(b, ..) with Entry an EWriter entry point, b an identifier    EvRenderToBuffer entry b
-//	fmt.Fprint*(b, ..), io.WriteString(b, ..), b.Write*(..) on a bytes.Buffer EvWriteLocal b
-//	a function or method of package jen with an io.Writer parameter whose
-//	argument is an identifier b                                     EvRender target b
+//	recv.Entry(b, ..) with Entry an EWriter entry point with ONE writer parameter, b a local bytes.Buffer
+//	                                                                EvRenderToBuffer entry b
+//	fmt.Fprint*(b, ..), io.WriteString(b, ..), b.Write*(..), b a local bytes.Buffer   EvWriteLocal b
+//	a function or method of package jen, not an entry point, with exactly ONE parameter whose type
+//	implements io.Writer, which receives a local bytes.Buffer b      EvRender target b
 //	anything else                                                   EvOther "text"
 //
 // Every statement that fits no rule is Do (EvWriteCaller KStore|KOtherUse ..) when it mentions
-// the writer and Do (EvOther "text") otherwise.  The checker io_wf of Spec/IOShape.v decides
-// what is acceptable; this program only classifies.
+// a writer, Do (EvWriteFile ..) when it mentions package os or an object of rule 1, and
+// Do (EvOther "text") otherwise.  The checker io_wf of Spec/IOShape.v decides what is
+// acceptable; this program only classifies.
+//
+// Confinement scan (func confinement; printed as io_confinement, which Proofs/IOProofs.v
+// requires to be []).  The semantics of EvRender / EvWriteLocal / EvFormat says that such an
+// event touches only its local buffer: never the caller's writer, never the file system.  The
+// caller's writer w itself cannot reach the callee (any mention of w is an EvWriteCaller event,
+// and only w.Write(x) and the delegation to another checked entry point are accepted), so what
+// has to be excluded is a second road to the same writer or to the file system.  For the WHOLE
+// package (every non-test file: functions, methods, function literals, initialisers; so every
+// callee, transitively, whatever the dispatch):
+//  1. no reference to an object of packages os, io/ioutil, syscall, os/exec, os/signal, net,
+//     net/http, log, plugin, unsafe, reflect, runtime/debug, to fmt.Print*/Scan*, or to the
+//     builtins print/println - except inside the bodies of the EFileSys entry points, which
+//     are translated and checked as events;
+//  2. no package-level variable and no struct field whose type implements io.Writer, other
+//     than bytes.Buffer / strings.Builder (nowhere to leave a writer for later);
+//  3. no type assertion, type-switch case or conversion from a non-writer to a type that
+//     implements io.Writer, other than those two (a writer smuggled in as interface{}: Lit(w));
+//  4. no import "C", no //go:linkname.
+//
+// What remains ASSUMED: the standard library packages outside rule 1 (bytes, fmt.Fprint*/Sprint*,
+// go/format, io, sort, strconv, strings, unicode ..) do not touch the file system or a writer
+// they were not given.
 package main
 
 import (
@@ -108,13 +171,27 @@ var (
 	fset = token.NewFileSet()
 	info *types.Info
 	pkg  *types.Package
-	// entry points that receive the caller's writer: function object -> (name, index of the writer parameter)
+	// entry points that receive the caller's writer: function object -> (name, indices of the writer parameters)
 	writerEntries = map[types.Object]entryRef{}
+	// io.Writer's method set (nil when package jen does not import io)
+	ioWriter *types.Interface
+	// every function and method of package jen that has a body
+	funcDecls = map[*types.Func]*ast.FuncDecl{}
 )
 
 type entryRef struct {
-	name string
-	widx int
+	name     string
+	widx     []int // every parameter whose type implements io.Writer
+	exported bool  // false: an unexported function that an entry point hands the caller's writer to
+}
+
+func (r entryRef) isWidx(i int) bool {
+	for _, j := range r.widx {
+		if i == j {
+			return true
+		}
+	}
+	return false
 }
 
 func text(n ast.Node) string {
@@ -125,15 +202,30 @@ func text(n ast.Node) string {
 	return strings.Join(strings.Fields(b.String()), " ")
 }
 
-func isIOWriter(t types.Type) bool {
-	n, ok := t.(*types.Named)
-	return ok && n.Obj().Pkg() != nil && n.Obj().Pkg().Path() == "io" && n.Obj().Name() == "Writer"
+// isWriter: a value of type t (or its address) can be used as an io.Writer: io.Writer itself,
+// io.WriteCloser, *os.File, *bytes.Buffer, bytes.Buffer, *bufio.Writer, ...
+func isWriter(t types.Type) bool {
+	if ioWriter == nil || t == nil {
+		return false
+	}
+	if types.Implements(t, ioWriter) {
+		return true
+	}
+	if _, isPtr := t.Underlying().(*types.Pointer); !isPtr && !types.IsInterface(t) {
+		return types.Implements(types.NewPointer(t), ioWriter)
+	}
+	return false
 }
 
 func isBytesBuffer(t types.Type) bool {
 	if p, ok := t.(*types.Pointer); ok {
 		t = p.Elem()
 	}
+	return isBufferValue(t)
+}
+
+// isBufferValue: t is bytes.Buffer (not a pointer to it)
+func isBufferValue(t types.Type) bool {
 	n, ok := t.(*types.Named)
 	return ok && n.Obj().Pkg() != nil && n.Obj().Pkg().Path() == "bytes" && n.Obj().Name() == "Buffer"
 }
@@ -185,18 +277,238 @@ func osCall(n ast.Node) *ast.CallExpr {
 	return found
 }
 
+// the outside world, besides calls into os and io/ioutil
+var deniedPkgs = map[string]bool{"os": true, "io/ioutil": true, "syscall": true, "os/exec": true, "os/signal": true,
+	"net": true, "net/http": true, "log": true, "plugin": true, "unsafe": true, "reflect": true, "runtime/debug": true}
+
+// refOutside: id names something through which code reaches the outside world without being
+// handed a writer: an object of a denied package, fmt.Print*, the builtins print and println.
+func refOutside(id *ast.Ident) string {
+	obj := info.Uses[id]
+	if obj == nil {
+		return ""
+	}
+	if b, ok := obj.(*types.Builtin); ok && (b.Name() == "print" || b.Name() == "println") {
+		return b.Name()
+	}
+	if obj.Pkg() == nil {
+		return ""
+	}
+	if deniedPkgs[obj.Pkg().Path()] {
+		return obj.Pkg().Name() + "." + obj.Name()
+	}
+	if fn, ok := obj.(*types.Func); ok && obj.Pkg().Path() == "fmt" {
+		if sig := fn.Type().(*types.Signature); sig.Recv() == nil {
+			switch fn.Name() {
+			case "Print", "Printf", "Println", "Scan", "Scanf", "Scanln":
+				return "fmt." + fn.Name()
+			}
+		}
+	}
+	return ""
+}
+
+// osRef: the first such reference below n ("" when none).
+func osRef(n ast.Node) string {
+	found := ""
+	ast.Inspect(n, func(x ast.Node) bool {
+		if id, ok := x.(*ast.Ident); ok && found == "" {
+			found = refOutside(id)
+		}
+		return found == ""
+	})
+	return found
+}
+
+// isScratch: bytes.Buffer / strings.Builder (or pointers to them): writers that are memory.
+func isScratch(t types.Type) bool {
+	if p, ok := t.(*types.Pointer); ok {
+		t = p.Elem()
+	}
+	n, ok := t.(*types.Named)
+	if !ok || n.Obj().Pkg() == nil {
+		return false
+	}
+	q := n.Obj().Pkg().Path() + "." + n.Obj().Name()
+	return q == "bytes.Buffer" || q == "strings.Builder"
+}
+
+// confinement checks the claim the event semantics makes about EvRender / EvWriteLocal / EvOther
+// (code of package jen that is not an entry point never touches the caller's writer or the file
+// system).  The caller's writer w itself cannot reach such code: every mention of w in an entry
+// point is an EvWriteCaller event and only w.Write(x) and the delegation to another checked
+// entry point are accepted.  What is left is reaching the same writer, or the file system, by
+// another road; so, for the WHOLE package (every non-test file, every function, method and
+// function literal, initialisers of package-level variables included, the bodies of the
+// EFileSys entry points excepted for rule 1):
+//  1. no reference to an object of packages os, io/ioutil, syscall, os/exec, os/signal, net,
+//     net/http, log, plugin, unsafe, reflect, runtime/debug; no fmt.Print*/Scan*; no print/println;
+//  2. no package-level variable and no struct field whose type implements io.Writer, other
+//     than bytes.Buffer / strings.Builder (a place where a writer could be left for later);
+//  3. no type assertion, type-switch case or conversion to a type that implements io.Writer
+//     other than those two (a writer smuggled in as an interface{} value, e.g. Lit(w));
+//  4. no cgo (import "C"), no //go:linkname.
+//
+// Returns the violations found (printed as io_confinement; Proofs/IOProofs.v wants []).
+func confinement(files []*ast.File, fsEntries map[*ast.FuncDecl]bool) []string {
+	var out []string
+	add := func(pos token.Pos, format string, a ...interface{}) {
+		p := fset.Position(pos)
+		out = append(out, fmt.Sprintf("%s:%d: ", filepath.Base(p.Filename), p.Line)+fmt.Sprintf(format, a...))
+	}
+	badWriterType := func(t types.Type) bool { return isWriter(t) && !isScratch(t) }
+	for _, f := range files {
+		for _, im := range f.Imports {
+			if im.Path.Value == `"C"` {
+				add(im.Pos(), "import \"C\"")
+			}
+		}
+		for _, cg := range f.Comments {
+			for _, c := range cg.List {
+				if strings.HasPrefix(c.Text, "//go:linkname") {
+					add(c.Pos(), "go:linkname")
+				}
+			}
+		}
+		for _, d := range f.Decls {
+			fd, isFunc := d.(*ast.FuncDecl)
+			skipRule1 := isFunc && fsEntries[fd]
+			ast.Inspect(d, func(x ast.Node) bool {
+				switch x := x.(type) {
+				case *ast.Ident:
+					if r := refOutside(x); r != "" && !skipRule1 {
+						add(x.Pos(), "reference to %s", r)
+					}
+					if v, ok := info.Defs[x].(*types.Var); ok && v.Pkg() == pkg && (v.IsField() || v.Parent() == pkg.Scope()) && badWriterType(v.Type()) {
+						add(x.Pos(), "%s of writer type %s", x.Name, types.TypeString(v.Type(), types.RelativeTo(pkg)))
+					}
+				case *ast.Field:
+					// embedded fields have no name
+					if len(x.Names) == 0 {
+						if tv, ok := info.Types[x.Type]; ok && tv.IsType() && badWriterType(tv.Type) {
+							if _, inStruct := structFields[x]; inStruct {
+								add(x.Pos(), "embedded field of writer type %s", text(x.Type))
+							}
+						}
+					}
+				case *ast.TypeAssertExpr:
+					if x.Type != nil {
+						if tv, ok := info.Types[x.Type]; ok && badWriterType(tv.Type) {
+							add(x.Pos(), "type assertion to writer type %s", text(x.Type))
+						}
+					}
+				case *ast.CaseClause:
+					for _, e := range x.List {
+						if tv, ok := info.Types[e]; ok && tv.IsType() && badWriterType(tv.Type) {
+							add(e.Pos(), "type-switch case on writer type %s", text(e))
+						}
+					}
+				case *ast.CallExpr:
+					if tv, ok := info.Types[x.Fun]; ok && tv.IsType() && badWriterType(tv.Type) && len(x.Args) == 1 {
+						if at, ok := info.Types[x.Args[0]]; ok && !isWriter(at.Type) {
+							add(x.Pos(), "conversion to writer type %s", text(x.Fun))
+						}
+					}
+				}
+				return true
+			})
+		}
+	}
+	return out
+}
+
+// struct fields (to tell an embedded struct field from an unnamed parameter)
+var structFields = map[*ast.Field]bool{}
+
+func collectStructFields(files []*ast.File) {
+	for _, f := range files {
+		ast.Inspect(f, func(x ast.Node) bool {
+			if st, ok := x.(*ast.StructType); ok && st.Fields != nil {
+				for _, fl := range st.Fields.List {
+					structFields[fl] = true
+				}
+			}
+			return true
+		})
+	}
+}
+
 type translator struct {
-	w    *types.Var // the caller's writer parameter (nil for EFileSys entries)
-	recv string
+	ws    map[types.Object]bool // the caller's writers: every parameter whose type implements io.Writer
+	recv  types.Object          // the receiver variable (nil for a function)
+	names map[types.Object]string
+	taken map[string]types.Object
+}
+
+func newTranslator(sig *types.Signature) *translator {
+	t := &translator{ws: map[types.Object]bool{}, names: map[types.Object]string{}, taken: map[string]types.Object{}}
+	if sig.Recv() != nil {
+		t.recv = sig.Recv()
+		t.nameOf(sig.Recv())
+	}
+	for i := 0; i < sig.Params().Len(); i++ {
+		t.nameOf(sig.Params().At(i))
+	}
+	return t
+}
+
+// nameOf: the name under which a local object appears in the table: its own name, or - when
+// another object of this function already has that name (shadowing, a second `buf` in an inner
+// block) - the name followed by #2, #3, ..: equal names in one entry of the table mean the
+// same object.
+func (t *translator) nameOf(obj types.Object) string {
+	if n, ok := t.names[obj]; ok {
+		return n
+	}
+	n := obj.Name()
+	for i := 2; t.taken[n] != nil; i++ {
+		n = fmt.Sprintf("%s#%d", obj.Name(), i)
+	}
+	t.names[obj] = n
+	t.taken[n] = obj
+	return n
+}
+
+func objOf(id *ast.Ident) types.Object {
+	if o := info.Uses[id]; o != nil {
+		return o
+	}
+	return info.Defs[id]
+}
+
+// local: e is an identifier x that denotes a local variable or a parameter of the function
+// being translated (not a field, not a package-level variable), or &x with x such a variable
+// of type bytes.Buffer; returns its table name.
+func (t *translator) local(e ast.Expr) (string, bool) {
+	e = unparen(e)
+	if u, ok := e.(*ast.UnaryExpr); ok && u.Op == token.AND {
+		id, ok := unparen(u.X).(*ast.Ident)
+		if !ok {
+			return "", false
+		}
+		if o := objOf(id); o == nil || !isBufferValue(o.Type()) {
+			return "", false
+		}
+		e = id
+	}
+	id, ok := e.(*ast.Ident)
+	if !ok || id.Name == "_" {
+		return "", false
+	}
+	v, ok := objOf(id).(*types.Var)
+	if !ok || v.IsField() || v.Pkg() != pkg || v.Parent() == nil || v.Parent() == pkg.Scope() || v.Parent() == types.Universe {
+		return "", false
+	}
+	return t.nameOf(v), true
 }
 
 func (t *translator) mentionsW(n ast.Node) bool {
-	if t.w == nil || n == nil {
+	if len(t.ws) == 0 || n == nil {
 		return false
 	}
 	found := false
 	ast.Inspect(n, func(x ast.Node) bool {
-		if id, ok := x.(*ast.Ident); ok && info.Uses[id] == t.w {
+		if id, ok := x.(*ast.Ident); ok && t.ws[info.Uses[id]] {
 			found = true
 		}
 		return !found
@@ -217,19 +529,11 @@ func hasFuncLit(n ast.Node) bool {
 
 func (t *translator) isW(e ast.Expr) bool {
 	id, ok := unparen(e).(*ast.Ident)
-	return ok && t.w != nil && info.Uses[id] == t.w
+	return ok && t.ws[info.Uses[id]]
 }
 
-func identName(e ast.Expr) (string, bool) {
-	id, ok := unparen(e).(*ast.Ident)
-	if !ok || id.Name == "_" {
-		return "", false
-	}
-	return id.Name, true
-}
-
-// bytesOf: e is `b.Bytes()` with b an identifier.
-func bytesOf(e ast.Expr) (string, bool) {
+// bytesOf: e is `b.Bytes()` with b a local bytes.Buffer or *bytes.Buffer variable.
+func (t *translator) bytesOf(e ast.Expr) (string, bool) {
 	c, ok := unparen(e).(*ast.CallExpr)
 	if !ok || len(c.Args) != 0 {
 		return "", false
@@ -238,7 +542,10 @@ func bytesOf(e ast.Expr) (string, bool) {
 	if !ok || sel.Sel.Name != "Bytes" {
 		return "", false
 	}
-	name, ok := identName(sel.X)
+	if _, isAddr := unparen(sel.X).(*ast.UnaryExpr); isAddr {
+		return "", false
+	}
+	name, ok := t.local(sel.X)
 	if !ok {
 		return "", false
 	}
@@ -252,12 +559,27 @@ func wk(kind, what, arg string) string {
 	return fmt.Sprintf("EvWriteCaller %s %s %s", kind, coqfmt.Str(what), coqfmt.Str(arg))
 }
 
+// localBuf: e denotes a local bytes.Buffer (b of type *bytes.Buffer or bytes.Buffer, or &b with b
+// of type bytes.Buffer).
+func (t *translator) localBuf(e ast.Expr) (string, bool) {
+	name, ok := t.local(e)
+	if !ok {
+		return "", false
+	}
+	if tv, ok := info.Types[e]; !ok || !isBytesBuffer(tv.Type) {
+		return "", false
+	}
+	return name, true
+}
+
 // classify translates a call into an event; dst is the variable its first result is assigned to.
 func (t *translator) classify(c *ast.CallExpr, dst string) string {
 	if t.mentionsW(c) {
 		if sel, ok := unparen(c.Fun).(*ast.SelectorExpr); ok && t.isW(sel.X) && sel.Sel.Name == "Write" && len(c.Args) == 1 {
-			if x, ok := identName(c.Args[0]); ok && !t.mentionsW(c.Args[0]) {
-				return wk("KWrite", text(c), x)
+			if x, ok := t.local(c.Args[0]); ok && !t.mentionsW(c.Args[0]) {
+				if _, isAddr := unparen(c.Args[0]).(*ast.UnaryExpr); !isAddr {
+					return wk("KWrite", text(c), x)
+				}
 			}
 			return wk("KWrite", text(c), "")
 		}
@@ -271,17 +593,18 @@ func (t *translator) classify(c *ast.CallExpr, dst string) string {
 			return wk("KWriteString", text(c), "")
 		}
 		if fn := callee(c); fn != nil {
-			if ref, ok := writerEntries[fn]; ok && ref.widx < len(c.Args) && t.isW(c.Args[ref.widx]) {
-				only := true
+			if ref, ok := writerEntries[fn]; ok {
+				// exactly one argument is a writer of the caller, it sits at a writer parameter of
+				// the entry called, and nothing else in the call mentions a writer
+				n, only := 0, !t.mentionsW(c.Fun)
 				for i, a := range c.Args {
-					if i != ref.widx && t.mentionsW(a) {
+					if ref.isWidx(i) && t.isW(a) {
+						n++
+					} else if t.mentionsW(a) {
 						only = false
 					}
 				}
-				if t.mentionsW(c.Fun) {
-					only = false
-				}
-				if only {
+				if n == 1 && only && osRef(c) == "" {
 					return wk("KDelegate", ref.name, "")
 				}
 			}
@@ -293,42 +616,51 @@ func (t *translator) classify(c *ast.CallExpr, dst string) string {
 		p := fn.Pkg().Name()
 		path, data := "", ""
 		if len(oc.Args) >= 1 {
-			path, _ = identName(oc.Args[0])
+			path, _ = t.local(oc.Args[0])
 		}
 		if len(oc.Args) >= 2 {
-			data, _ = bytesOf(oc.Args[1])
+			data, _ = t.bytesOf(oc.Args[1])
 		}
 		if oc != c {
 			// an os call buried in the arguments of something else: not the recognised shape
 			return fmt.Sprintf("EvWriteFile %s %s %s", coqfmt.Str(p+"."+fn.Name()+" (nested)"), coqfmt.Str(""), coqfmt.Str(""))
 		}
+		for _, a := range oc.Args {
+			if osRef(a) != "" {
+				return fmt.Sprintf("EvWriteFile %s %s %s", coqfmt.Str(p+"."+fn.Name()+" (with "+osRef(a)+")"), coqfmt.Str(""), coqfmt.Str(""))
+			}
+		}
 		return fmt.Sprintf("EvWriteFile %s %s %s", coqfmt.Str(p+"."+fn.Name()), coqfmt.Str(path), coqfmt.Str(data))
 	}
+	if r := osRef(c); r != "" {
+		// os.Stdout, os.Args, log.Printf, fmt.Println ..: not a call into os, but the outside world all the same
+		return fmt.Sprintf("EvWriteFile %s %s %s", coqfmt.Str(r+" (in: "+text(c)+")"), coqfmt.Str(""), coqfmt.Str(""))
+	}
 	if calleeIs(c, "go/format", "Source") && len(c.Args) == 1 {
-		if src, ok := bytesOf(c.Args[0]); ok && dst != "" {
+		if src, ok := t.bytesOf(c.Args[0]); ok && dst != "" {
 			return fmt.Sprintf("EvFormat %s %s", coqfmt.Str(dst), coqfmt.Str(src))
 		}
 	}
 	if fn := callee(c); fn != nil {
-		if ref, ok := writerEntries[fn]; ok && ref.widx < len(c.Args) {
-			if b, ok := identName(c.Args[ref.widx]); ok {
+		if ref, ok := writerEntries[fn]; ok && ref.exported && len(ref.widx) == 1 && ref.widx[0] < len(c.Args) {
+			if b, ok := t.localBuf(c.Args[ref.widx[0]]); ok {
 				return fmt.Sprintf("EvRenderToBuffer %s %s", coqfmt.Str(ref.name), coqfmt.Str(b))
 			}
 		}
 	}
 	if calleeIs(c, "fmt", "Fprint", "Fprintf", "Fprintln") && len(c.Args) >= 1 {
-		if b, ok := identName(c.Args[0]); ok {
+		if b, ok := t.localBuf(c.Args[0]); ok {
 			return fmt.Sprintf("EvWriteLocal %s", coqfmt.Str(b))
 		}
 	}
 	if calleeIs(c, "io", "WriteString") && len(c.Args) >= 1 {
-		if b, ok := identName(c.Args[0]); ok {
+		if b, ok := t.localBuf(c.Args[0]); ok {
 			return fmt.Sprintf("EvWriteLocal %s", coqfmt.Str(b))
 		}
 	}
 	if sel, ok := unparen(c.Fun).(*ast.SelectorExpr); ok {
-		if b, ok := identName(sel.X); ok {
-			if tv, ok := info.Types[sel.X]; ok && isBytesBuffer(tv.Type) {
+		if _, isAddr := unparen(sel.X).(*ast.UnaryExpr); !isAddr {
+			if b, ok := t.localBuf(sel.X); ok {
 				switch sel.Sel.Name {
 				case "Write", "WriteString", "WriteByte", "WriteRune":
 					return fmt.Sprintf("EvWriteLocal %s", coqfmt.Str(b))
@@ -337,10 +669,17 @@ func (t *translator) classify(c *ast.CallExpr, dst string) string {
 		}
 	}
 	if fn := callee(c); fn != nil && fn.Pkg() == pkg {
-		if sig, ok := fn.Type().(*types.Signature); ok {
-			for i := 0; i < sig.Params().Len() && i < len(c.Args); i++ {
-				if isIOWriter(sig.Params().At(i).Type()) {
-					if b, ok := identName(c.Args[i]); ok {
+		if ref, isEntry := writerEntries[fn]; !isEntry || !ref.exported {
+			if sig, ok := fn.Type().(*types.Signature); ok {
+				// exactly one writer parameter, and it receives a local buffer
+				var ws []int
+				for i := 0; i < sig.Params().Len(); i++ {
+					if isWriter(sig.Params().At(i).Type()) {
+						ws = append(ws, i)
+					}
+				}
+				if len(ws) == 1 && ws[0] < len(c.Args) && !(sig.Variadic() && ws[0] == sig.Params().Len()-1) {
+					if b, ok := t.localBuf(c.Args[ws[0]]); ok {
 						return fmt.Sprintf("EvRender %s %s", coqfmt.Str(text(c.Fun)), coqfmt.Str(b))
 					}
 				}
@@ -366,6 +705,9 @@ func (t *translator) fallback(s ast.Stmt) string {
 	if oc := osCall(s); oc != nil {
 		fn := callee(oc)
 		return fmt.Sprintf("Do (EvWriteFile %s %s %s)", coqfmt.Str(fn.Pkg().Name()+"."+fn.Name()+" (in: "+text(s)+")"), coqfmt.Str(""), coqfmt.Str(""))
+	}
+	if r := osRef(s); r != "" {
+		return fmt.Sprintf("Do (EvWriteFile %s %s %s)", coqfmt.Str(r+" (in: "+text(s)+")"), coqfmt.Str(""), coqfmt.Str(""))
 	}
 	return "Do (EvOther " + coqfmt.Str(text(s)) + ")"
 }
@@ -402,7 +744,7 @@ func (t *translator) handler(body *ast.BlockStmt, errObj types.Object) (string, 
 		return "", false
 	}
 	r, ok := body.List[0].(*ast.ReturnStmt)
-	if !ok || len(r.Results) != 1 || t.mentionsW(r) || osCall(r) != nil {
+	if !ok || len(r.Results) != 1 || t.mentionsW(r) || osCall(r) != nil || osRef(r) != "" {
 		return "", false
 	}
 	x := unparen(r.Results[0])
@@ -424,7 +766,7 @@ func (t *translator) handler(body *ast.BlockStmt, errObj types.Object) (string, 
 
 // errAssign: `[x|_,] err :=|= CALL` ; returns the call, the name of the first result variable
 // ("" when blank or absent) and the error variable's object.
-func errAssign(a *ast.AssignStmt) (*ast.CallExpr, string, types.Object) {
+func (t *translator) errAssign(a *ast.AssignStmt) (*ast.CallExpr, string, types.Object) {
 	if (a.Tok != token.DEFINE && a.Tok != token.ASSIGN) || len(a.Rhs) != 1 || len(a.Lhs) < 1 || len(a.Lhs) > 2 {
 		return nil, "", nil
 	}
@@ -450,7 +792,9 @@ func errAssign(a *ast.AssignStmt) (*ast.CallExpr, string, types.Object) {
 			return nil, "", nil
 		}
 		if id.Name != "_" {
-			dst = id.Name
+			if dst, ok = t.local(id); !ok {
+				return nil, "", nil
+			}
 		}
 	}
 	return c, dst, obj
@@ -505,8 +849,81 @@ func blockOf(items []string, indent string) string {
 	return "(block " + coqfmt.List(items, indent+"  ") + ")"
 }
 
+// noFormatCond: cond is `r.NoFormat` (neg false) or `!r.NoFormat` (neg true), r the receiver and
+// NoFormat a bool field.
+func (t *translator) noFormatCond(cond ast.Expr) (neg, ok bool) {
+	cond = unparen(cond)
+	if u, isNot := cond.(*ast.UnaryExpr); isNot && u.Op == token.NOT {
+		neg = true
+		cond = unparen(u.X)
+	}
+	sel, isSel := cond.(*ast.SelectorExpr)
+	if !isSel || sel.Sel.Name != "NoFormat" {
+		return false, false
+	}
+	fld, isVar := info.Uses[sel.Sel].(*types.Var)
+	if !isVar || !fld.IsField() || fld.Pkg() != pkg {
+		return false, false
+	}
+	if b, isBasic := fld.Type().Underlying().(*types.Basic); !isBasic || b.Kind() != types.Bool {
+		return false, false
+	}
+	id, isId := unparen(sel.X).(*ast.Ident)
+	if !isId || t.recv == nil || info.Uses[id] != t.recv {
+		return false, false
+	}
+	return neg, true
+}
+
+// pureSimple: nil, or `x := e` / `x = e` / `x++` / `x--` / `x += e` on local non-writer variables, e without
+// calls (but len), writers or function literals: a loop header that does nothing but count.
+func (t *translator) pureSimple(s ast.Stmt) bool {
+	switch s := s.(type) {
+	case nil:
+		return true
+	case *ast.IncDecStmt:
+		_, ok := t.local(s.X)
+		return ok && !t.mentionsW(s)
+	case *ast.AssignStmt:
+		for _, l := range s.Lhs {
+			if id, ok := unparen(l).(*ast.Ident); ok && id.Name == "_" {
+				continue
+			}
+			if _, ok := t.local(l); !ok {
+				return false
+			}
+			if tv, ok := info.Types[l]; ok && (isWriter(tv.Type) || isBytesBuffer(tv.Type)) {
+				return false
+			}
+		}
+		for _, r := range s.Rhs {
+			if !t.pureCond(r) {
+				return false
+			}
+			if tv, ok := info.Types[r]; ok && (isWriter(tv.Type) || isBytesBuffer(tv.Type)) {
+				return false
+			}
+		}
+		return true
+	}
+	return false
+}
+
 func (t *translator) stmts(list []ast.Stmt, indent string) []string {
 	var out []string
+	// try: CALL whose error is tested by the statement that follows
+	try := func(i *int, c *ast.CallExpr, dst string, errObj types.Object) {
+		ev := t.classify(c, dst)
+		if h, ok := t.followingCheck(list, *i, errObj); ok {
+			out = append(out, fmt.Sprintf("Try (%s) %s", ev, h))
+			*i++
+		} else if t.followingReturn(list, *i, errObj) {
+			out = append(out, fmt.Sprintf("Try (%s) EvReturnErr", ev), "EvReturnNil")
+			*i++
+		} else {
+			out = append(out, "Do ("+ev+")")
+		}
+	}
 	for i := 0; i < len(list); i++ {
 		s := list[i]
 		switch s := s.(type) {
@@ -514,36 +931,42 @@ func (t *translator) stmts(list []ast.Stmt, indent string) []string {
 			continue
 		case *ast.DeclStmt:
 			gd, ok := s.Decl.(*ast.GenDecl)
-			if ok && gd.Tok == token.VAR && !t.mentionsW(s) {
-				plain := true
-				var names []string
+			if ok && gd.Tok == token.VAR && !t.mentionsW(s) && osRef(s) == "" {
+				var evs []string
+				good := true
 				for _, sp := range gd.Specs {
 					vs := sp.(*ast.ValueSpec)
-					if len(vs.Values) != 0 {
-						plain = false
-					}
-					for _, n := range vs.Names {
-						names = append(names, n.Name)
+					switch {
+					case len(vs.Values) == 0:
+						for _, n := range vs.Names {
+							if n.Name == "_" {
+								continue
+							}
+							obj := info.Defs[n]
+							if obj != nil && isBufferValue(obj.Type()) {
+								// var buf bytes.Buffer: the zero value is an empty buffer ready to use
+								evs = append(evs, "Do (EvNewBuf "+coqfmt.Str(t.nameOf(obj))+")")
+							} else if obj != nil {
+								evs = append(evs, "Do (EvDecl "+coqfmt.Str(t.nameOf(obj))+")")
+							}
+						}
+					case len(vs.Values) == 1 && len(vs.Names) == 1 && vs.Names[0].Name != "_" && isNewBuffer(vs.Values[0]):
+						// var buf = &bytes.Buffer{} | bytes.Buffer{} | new(bytes.Buffer)
+						evs = append(evs, "Do (EvNewBuf "+coqfmt.Str(t.nameOf(info.Defs[vs.Names[0]]))+")")
+					default:
+						good = false
 					}
 				}
-				if plain {
-					for _, n := range names {
-						out = append(out, "Do (EvDecl "+coqfmt.Str(n)+")")
-					}
+				if good {
+					out = append(out, evs...)
 					continue
 				}
 			}
 		case *ast.AssignStmt:
 			if t.mentionsW(s) {
 				// the only assignment that may mention w is `.., err := <call using w>`
-				if c, dst, errObj := errAssign(s); c != nil && !t.mentionsW(s.Lhs[0]) {
-					ev := t.classify(c, dst)
-					if h, ok := t.followingCheck(list, i, errObj); ok {
-						out = append(out, fmt.Sprintf("Try (%s) %s", ev, h))
-						i++
-					} else {
-						out = append(out, "Do ("+ev+")")
-					}
+				if c, dst, errObj := t.errAssign(s); c != nil && !t.mentionsW(s.Lhs[0]) {
+					try(&i, c, dst, errObj)
 					continue
 				}
 				if len(s.Rhs) == 1 && allBlank(s.Lhs) {
@@ -555,27 +978,21 @@ func (t *translator) stmts(list []ast.Stmt, indent string) []string {
 				break
 			}
 			if s.Tok == token.DEFINE && len(s.Lhs) == 1 && len(s.Rhs) == 1 && isNewBuffer(s.Rhs[0]) {
-				if n, ok := identName(s.Lhs[0]); ok {
+				if n, ok := t.local(s.Lhs[0]); ok {
 					out = append(out, "Do (EvNewBuf "+coqfmt.Str(n)+")")
 					continue
 				}
 			}
 			if len(s.Lhs) == 1 && len(s.Rhs) == 1 && (s.Tok == token.ASSIGN || s.Tok == token.DEFINE) {
-				if src, ok := bytesOf(s.Rhs[0]); ok {
-					if n, ok := identName(s.Lhs[0]); ok {
+				if src, ok := t.bytesOf(s.Rhs[0]); ok {
+					if n, ok := t.local(s.Lhs[0]); ok {
 						out = append(out, fmt.Sprintf("Do (EvBytes %s %s)", coqfmt.Str(n), coqfmt.Str(src)))
 						continue
 					}
 				}
 			}
-			if c, dst, errObj := errAssign(s); c != nil {
-				ev := t.classify(c, dst)
-				if h, ok := t.followingCheck(list, i, errObj); ok {
-					out = append(out, fmt.Sprintf("Try (%s) %s", ev, h))
-					i++
-				} else {
-					out = append(out, "Do ("+ev+")")
-				}
+			if c, dst, errObj := t.errAssign(s); c != nil {
+				try(&i, c, dst, errObj)
 				continue
 			}
 			if len(s.Rhs) == 1 && allBlank(s.Lhs) {
@@ -605,7 +1022,7 @@ func (t *translator) stmts(list []ast.Stmt, indent string) []string {
 		case *ast.IfStmt:
 			if s.Init != nil && s.Else == nil {
 				if a, ok := s.Init.(*ast.AssignStmt); ok && a.Tok == token.DEFINE {
-					if c, dst, errObj := errAssign(a); c != nil && errCheck(s.Cond) == errObj && !t.mentionsW(a.Lhs[0]) {
+					if c, dst, errObj := t.errAssign(a); c != nil && errCheck(s.Cond) == errObj && !t.mentionsW(a.Lhs[0]) {
 						if h, ok := t.handler(s.Body, errObj); ok {
 							out = append(out, fmt.Sprintf("Try (%s) %s", t.classify(c, dst), h))
 							continue
@@ -613,11 +1030,24 @@ func (t *translator) stmts(list []ast.Stmt, indent string) []string {
 					}
 				}
 			}
-			if s.Init == nil && s.Else != nil {
-				if sel, ok := unparen(s.Cond).(*ast.SelectorExpr); ok && sel.Sel.Name == "NoFormat" && !t.mentionsW(s.Cond) {
-					if eb, ok := s.Else.(*ast.BlockStmt); ok {
+			if s.Init == nil {
+				if neg, ok := t.noFormatCond(s.Cond); ok {
+					// if r.NoFormat { A } [else { B }]  /  if !r.NoFormat { B } [else { A }]
+					var eb []ast.Stmt
+					good := true
+					switch e := s.Else.(type) {
+					case nil:
+					case *ast.BlockStmt:
+						eb = e.List
+					default: // else if
+						good = false
+					}
+					if good {
 						a := t.stmts(s.Body.List, indent+"  ")
-						b := t.stmts(eb.List, indent+"  ")
+						b := t.stmts(eb, indent+"  ")
+						if neg {
+							a, b = b, a
+						}
 						out = append(out, fmt.Sprintf("EvCondNoFormat %s %s", blockOf(a, indent), blockOf(b, indent)))
 						continue
 					}
@@ -634,10 +1064,43 @@ func (t *translator) stmts(list []ast.Stmt, indent string) []string {
 				out = append(out, fmt.Sprintf("For %s %s", coqfmt.Str(text(s.X)), blockOf(a, indent)))
 				continue
 			}
+		case *ast.ForStmt:
+			// for i := 0; i < len(xs); i++ { A }: a header that only counts; the body runs some number of times
+			if t.pureSimple(s.Init) && t.pureSimple(s.Post) && (s.Cond == nil || (t.pureCond(s.Cond) && errCheck(s.Cond) == nil)) {
+				a := t.stmts(s.Body.List, indent+"  ")
+				hdr := "for "
+				if s.Init != nil {
+					hdr += text(s.Init)
+				}
+				hdr += "; "
+				if s.Cond != nil {
+					hdr += text(s.Cond)
+				}
+				hdr += "; "
+				if s.Post != nil {
+					hdr += text(s.Post)
+				}
+				out = append(out, fmt.Sprintf("For %s %s", coqfmt.Str(hdr), blockOf(a, indent)))
+				continue
+			}
 		}
 		out = append(out, t.fallback(s))
 	}
 	return out
+}
+
+// followingReturn: list[i+1] is `return err` on the same error variable: with the call before it,
+// `x, err := CALL; return err` is `if err != nil { return err }; return nil`.
+func (t *translator) followingReturn(list []ast.Stmt, i int, errObj types.Object) bool {
+	if i+1 >= len(list) {
+		return false
+	}
+	r, ok := list[i+1].(*ast.ReturnStmt)
+	if !ok || len(r.Results) != 1 {
+		return false
+	}
+	id, ok := unparen(r.Results[0]).(*ast.Ident)
+	return ok && info.Uses[id] == errObj
 }
 
 func hasCall(e ast.Expr) bool {
@@ -762,47 +1225,118 @@ func main() {
 	if err != nil {
 		die("package jen does not type-check: %v", err)
 	}
+	for _, im := range pkg.Imports() {
+		if im.Path() == "io" {
+			if o := im.Scope().Lookup("Writer"); o != nil {
+				ioWriter, _ = o.Type().Underlying().(*types.Interface)
+			}
+		}
+	}
+	collectStructFields(files)
 
 	var decls []*ast.FuncDecl
 	for _, f := range files {
 		for _, d := range f.Decls {
-			if fd, ok := d.(*ast.FuncDecl); ok && exportedEntry(fd) {
-				decls = append(decls, fd)
+			if fd, ok := d.(*ast.FuncDecl); ok {
+				if fn, ok := info.Defs[fd.Name].(*types.Func); ok && fd.Body != nil {
+					funcDecls[fn] = fd
+				}
+				if exportedEntry(fd) {
+					decls = append(decls, fd)
+				}
 			}
 		}
 	}
 	sort.Slice(decls, func(i, j int) bool { return entryName(decls[i]) < entryName(decls[j]) })
 
-	// pass 1: which exported functions receive the caller's writer
-	widx := map[*ast.FuncDecl]int{}
-	for _, fd := range decls {
-		obj := info.Defs[fd.Name]
-		sig := obj.Type().(*types.Signature)
+	// pass 1: which exported functions receive a writer of the caller (any parameter whose type
+	// implements io.Writer) ..
+	widx := map[*ast.FuncDecl][]int{}
+	writerParams := func(fd *ast.FuncDecl) []int {
+		sig := info.Defs[fd.Name].Type().(*types.Signature)
+		var ws []int
 		for i := 0; i < sig.Params().Len(); i++ {
-			if isIOWriter(sig.Params().At(i).Type()) {
-				widx[fd] = i
-				writerEntries[obj] = entryRef{entryName(fd), i}
-				break
+			if isWriter(sig.Params().At(i).Type()) {
+				ws = append(ws, i)
 			}
 		}
+		return ws
 	}
+	var work []*ast.FuncDecl
+	for _, fd := range decls {
+		if ws := writerParams(fd); len(ws) > 0 {
+			widx[fd] = ws
+			writerEntries[info.Defs[fd.Name]] = entryRef{entryName(fd), ws, true}
+			work = append(work, fd)
+		}
+	}
+	// .. and, transitively, which UNEXPORTED functions of package jen such a function hands a
+	// caller's writer to (a statically resolved call with the writer, as an identifier, at a
+	// parameter whose type implements io.Writer).  They are entries of the table too (INTERNAL
+	// entry points: same translation, same checker), so that `return helper(w, ..)` is a
+	// delegation like Render -> RenderWithFile, and whatever else is done with w is examined
+	// where it is done.
+	for len(work) > 0 {
+		fd := work[0]
+		work = work[1:]
+		sig := info.Defs[fd.Name].Type().(*types.Signature)
+		mine := map[types.Object]bool{}
+		for _, i := range widx[fd] {
+			mine[sig.Params().At(i)] = true
+		}
+		ast.Inspect(fd.Body, func(x ast.Node) bool {
+			c, ok := x.(*ast.CallExpr)
+			if !ok {
+				return true
+			}
+			fn := callee(c)
+			if fn == nil || fn.Pkg() != pkg {
+				return true
+			}
+			cd := funcDecls[fn]
+			if cd == nil || widx[cd] != nil {
+				return true
+			}
+			csig := fn.Type().(*types.Signature)
+			for i, a := range c.Args {
+				if i >= csig.Params().Len() || (csig.Variadic() && i >= csig.Params().Len()-1) {
+					break
+				}
+				id, isId := unparen(a).(*ast.Ident)
+				if isId && mine[info.Uses[id]] && isWriter(csig.Params().At(i).Type()) {
+					widx[cd] = writerParams(cd)
+					writerEntries[fn] = entryRef{entryName(cd), widx[cd], false}
+					decls = append(decls, cd)
+					work = append(work, cd)
+					break
+				}
+			}
+			return true
+		})
+	}
+	sort.Slice(decls, func(i, j int) bool { return entryName(decls[i]) < entryName(decls[j]) })
 
 	var entries []entry
 	var notes [][2]string
+	fsEntries := map[*ast.FuncDecl]bool{}
 	for _, fd := range decls {
 		obj := info.Defs[fd.Name]
 		sig := obj.Type().(*types.Signature)
-		_, _, rname := recvOf(fd)
+		t := newTranslator(sig)
 		path := ""
 		for i := 0; i < sig.Params().Len(); i++ {
 			if b, ok := sig.Params().At(i).Type().(*types.Basic); ok && b.Kind() == types.String {
-				path = sig.Params().At(i).Name()
+				path = t.nameOf(sig.Params().At(i))
 				break
 			}
 		}
 		singleErr := sig.Results().Len() == 1 && sig.Results().At(0).Type().String() == "error" && sig.Results().At(0).Name() == ""
-		if i, ok := widx[fd]; ok {
-			t := &translator{w: sig.Params().At(i), recv: rname}
+		if ws, ok := widx[fd]; ok {
+			var wnames []string
+			for _, i := range ws {
+				t.ws[sig.Params().At(i)] = true
+				wnames = append(wnames, t.nameOf(sig.Params().At(i)))
+			}
 			var body []string
 			if !singleErr {
 				body = []string{"Do (EvOther " + coqfmt.Str("results are not a single unnamed error: "+text(fd.Type)) + ")"}
@@ -813,11 +1347,11 @@ func main() {
 			if len(body) == 2 && strings.HasPrefix(body[0], "Try (EvWriteCaller KDelegate ") && body[1] == "EvReturnNil" {
 				kind = "EDelegate"
 			}
-			entries = append(entries, entry{entryName(fd), kind, sig.Params().At(i).Name(), path, body})
+			entries = append(entries, entry{entryName(fd), kind, strings.Join(wnames, ","), path, body})
 			continue
 		}
-		if osCall(fd.Body) != nil {
-			t := &translator{}
+		if exportedEntry(fd) && osCall(fd.Body) != nil {
+			fsEntries[fd] = true
 			var body []string
 			if !singleErr {
 				body = []string{"Do (EvOther " + coqfmt.Str("results are not a single unnamed error: "+text(fd.Type)) + ")"}
@@ -825,6 +1359,9 @@ func main() {
 				body = t.stmts(fd.Body.List, "    ")
 			}
 			entries = append(entries, entry{entryName(fd), "EFileSys", "", path, body})
+			continue
+		}
+		if !exportedEntry(fd) {
 			continue
 		}
 		// note: calls an entry point (with a local buffer)
@@ -839,6 +1376,7 @@ func main() {
 			return true
 		})
 	}
+	confined := confinement(files, fsEntries)
 
 	out := os.Stdout
 	fmt.Fprintf(out, "(* GENERATED by tools/cmd/io2coq from %s - do not edit *)\n", repo)
@@ -858,5 +1396,10 @@ func main() {
 	for _, n := range notes {
 		ns = append(ns, fmt.Sprintf("(%s, %s)", coqfmt.Str(n[0]), coqfmt.Str(n[1])))
 	}
+	var cs []string
+	for _, c := range confined {
+		cs = append(cs, coqfmt.Str(c))
+	}
+	fmt.Fprintf(out, "(* what would let code of package jen that is not an entry point reach the caller's writer or the\n   file system (see `confinement` in tools/cmd/io2coq/main.go); must be empty *)\nDefinition io_confinement : list str := %s.\n\n", coqfmt.List(cs, "  "))
 	fmt.Fprintf(out, "(* exported functions that have no caller resource and call an entry point (with a buffer of their own) *)\nDefinition io_notes : list (str * str) := %s.\n", coqfmt.List(ns, "  "))
 }
